@@ -35,7 +35,7 @@ MCCfgTable == <<
   C("uninstall", 6, {"prerm", "postrm"}, {}, {}, FALSE, FALSE, TRUE),                         \* 6
   C("replace", 6, {"preinst", "postinst", "prerm", "postrm"}, {}, {}, FALSE, FALSE, TRUE),    \* 7
   C("replace", 2, {"preinst", "postrm"}, {}, {}, FALSE, FALSE, TRUE),                         \* 8
-  C("localize", 6, {"setup"}, {}, {}, FALSE, FALSE, TRUE)                                     \* 9
+  C("localize", 6, {"setup"}, {}, {}, FALSE, FALSE, FALSE)                                    \* 9
 >>
 MCCfgs == {MCCfgTable[k] : k \in CfgIds}
 
@@ -48,9 +48,15 @@ Init == /\ cfg \in MCCfgs
         /\ last = NoLast /\ n = 0
 
 \* single-fault scripts: everything succeeds except (possibly) one phase
-Hows == {"false", "die", "ok_nomark", "ipcint", "intr"}
+Hows == {"false", "die", "ok_nomark"}
 ScriptOf(failAt, how) == [p \in ScriptKeys |-> IF p = failAt THEN how ELSE "ok"]
-Scripts == {ScriptOf("-", "ok")} \cup {ScriptOf(p, h) : p \in PhaseNames, h \in Hows} \cup {ScriptOf("fetch", "fail")}
+\* (a fault in a phase the call cannot reach - not on the chain of the stage, or already recorded - is
+\*  the same as no fault; "false" differs from "die" only where failure is tolerated or in the exception)
+DoneTop == IF cfg.kind = "replace" THEN S.top ELSE S.a.done
+ScriptsFor(stage) == {ScriptOf("-", "ok")}
+                       \cup (IF cfg.kind = "build" /\ ~S.a.vf /\ "unpack" \notin S.a.done THEN {ScriptOf("fetch", "fail")} ELSE {})
+                       \cup {ScriptOf(f[1], f[2]) : f \in {x \in ((DepsSet(cfg.kind, stage) \ DoneTop) \cap PhaseNames) \X Hows :
+                                                           x[2] = "false" => x[1] \in {"test", "postrm"}}}
 
 Leafy == cfg.kind # "replace"
 \* the build directory whose incarnations `life` follows: a for the leaf kinds
@@ -62,7 +68,7 @@ LifeAfter(S1, r) ==
 
 DoCall(stage, ignore, script) ==
   /\ CallInDomain(S, cfg, stage, ignore)
-  /\ LET r == Call(S, cfg, stage, ignore, script) IN
+  /\ \E r \in {Call(S, cfg, stage, ignore, script)} :   \* (bound once: TLC re-evaluates LET bodies per use)
      /\ S' = r.s
      /\ life' = LifeAfter(S, r)
      /\ noauto' = (noauto \/ ignore)
@@ -70,7 +76,7 @@ DoCall(stage, ignore, script) ==
      /\ last' = [op |-> "call", stage |-> stage, ignore |-> ignore, force |-> FALSE, ran |-> r.ran, oks |-> r.oks, exc |-> r.exc]
 DoCleanup(force) ==
   /\ Leafy
-  /\ LET r == Cleanup(S, force, FALSE) IN
+  /\ \E r \in {Cleanup(S, force, FALSE)} :
      /\ S' = r.s /\ life' = LifeAfter(S, r)
      /\ last' = [NoLast EXCEPT !.op = "cleanup", !.force = force]
   /\ UNCHANGED <<noauto, started>>
@@ -95,12 +101,12 @@ DoDirtySession ==
   /\ started' = FALSE /\ UNCHANGED <<life, noauto>>
 DoFinish ==
   /\ cfg.kind = "uninstall"
-  /\ LET r == Finish(S) IN S' = r.s /\ life' = LifeAfter(S, r)
+  /\ \E r \in {Finish(S)} : S' = r.s /\ life' = LifeAfter(S, r)
   /\ last' = [NoLast EXCEPT !.op = "finish"]
   /\ UNCHANGED <<noauto, started>>
 
 Next == /\ n < MaxOps /\ n' = n + 1 /\ cfg' = cfg
-        /\ \/ \E stage \in StagesOf(cfg.kind), script \in Scripts : DoCall(stage, FALSE, script)
+        /\ \/ \E stage \in StagesOf(cfg.kind) : \E script \in ScriptsFor(stage) : DoCall(stage, FALSE, script)
            \* --no-auto calls (pebuild objects: clean=False; a clean=True object only after its start())
            \/ \E stage \in StagesOf(cfg.kind) \ {"start", "finalize"} :
                  Leafy /\ (~S.a.cas \/ "start" \in S.a.done) /\ DoCall(stage, TRUE, ScriptOf("-", "ok"))
@@ -146,9 +152,9 @@ NoRerun == [][IsCall => \A k \in 1..Len(last'.ran) : last'.ran[k].ph = "fetch" \
 \* inside one call the phases follow the chain
 OrderInCall == [][IsCall => LET p == PhasesRan(last') IN
                     \A i, j \in 1..Len(p) : i < j => Pos(cfg.kind, p[i].ph) < Pos(cfg.kind, p[j].ph)]_vars
-\* a failure stops the walk: the target is not recorded, what completed before it is
+\* a failure stops the walk: the chain of the target is not complete, what completed before the failure is recorded
 FailureStops == [][(IsCall /\ last'.exc # "") =>
-                     /\ last'.stage \notin DoneOf(S')
+                     /\ ~((IF last'.ignore THEN {last'.stage} ELSE DepsSet(cfg.kind, last'.stage)) \subseteq DoneOf(S'))
                      /\ DoneOf(S) \subseteq DoneOf(S')
                      /\ \A s \in DoneOf(S') \ DoneOf(S) : Pos(cfg.kind, s) < Pos(cfg.kind, last'.stage)]_vars
 SuccessCompletes == [][(IsCall /\ last'.exc = "" /\ ~last'.ignore) => DepsSet(cfg.kind, last'.stage) \subseteq DoneOf(S')]_vars
